@@ -30,6 +30,11 @@ type DestCfg struct {
 	FaultRuns int `json:"fault_runs,omitempty"`
 	// Chunk: in free-running mode answer in chunks of this many acks (0 = whole request at once)
 	Chunk int `json:"chunk,omitempty"`
+	// Batch: a batching destination (free-running mode), as the connector SDK's sdk.batch.size/delay: written
+	// records are buffered and answered only once Batch of them are pending, or BatchDelayMs (default 25) after
+	// the first one was buffered, or when Stop(lastPosition) tells the connector to flush (0 = off)
+	Batch        int `json:"batch,omitempty"`
+	BatchDelayMs int `json:"batch_delay_ms,omitempty"`
 }
 
 type pendingRec struct {
@@ -55,6 +60,8 @@ type Dest struct {
 	attempts int
 	tears    int
 	st       *dstStream
+	flushAll bool // Stop was received in this run: flush whatever is buffered
+	bufSince time.Time // when the oldest buffered record arrived (batching mode)
 }
 
 type grant struct {
@@ -99,6 +106,7 @@ func (d *Dest) Open(context.Context, pconnector.DestinationOpenRequest) (pconnec
 	d.written = 0
 	d.pending = nil
 	d.grants = nil
+	d.flushAll = false
 	d.W.Log.Add("Open", "conn", d.Cfg.ID, "key", d.Cfg.ID, "kind", kind, "ok", true, "run", d.run)
 	return pconnector.DestinationOpenResponse{}, nil
 }
@@ -206,7 +214,21 @@ func (d *Dest) replyLoop(ctx context.Context, st *dstStream, run int) {
 				return
 			}
 			if len(d.pending) > 0 && (!d.Cfg.Gated || len(d.grants) > 0) {
-				break
+				if d.Cfg.Gated || d.Cfg.Batch == 0 || d.flushAll || len(d.pending) >= d.Cfg.Batch {
+					break
+				}
+				delay := time.Duration(d.Cfg.BatchDelayMs) * time.Millisecond
+				if delay == 0 {
+					delay = 25 * time.Millisecond
+				}
+				if d.bufSince.IsZero() {
+					d.bufSince = time.Now()
+				}
+				if left := delay - time.Since(d.bufSince); left <= 0 {
+					break
+				} else {
+					time.AfterFunc(left, func() { d.mu.Lock(); d.cond.Broadcast(); d.mu.Unlock() })
+				}
 			}
 			d.cond.Wait()
 		}
@@ -226,6 +248,7 @@ func (d *Dest) replyLoop(ctx context.Context, st *dstStream, run int) {
 		}
 		recs := d.pending[:n]
 		d.pending = d.pending[n:]
+		d.bufSince = time.Time{}
 		d.replies++
 		acks := make([]pconnector.DestinationRunResponseAck, 0, n)
 		for _, r := range recs {
@@ -351,10 +374,14 @@ func (d *Dest) Pending() int {
 
 func (d *Dest) Stop(_ context.Context, r pconnector.DestinationStopRequest) (pconnector.DestinationStopResponse, error) {
 	d.W.Log.Add("DstStop", "conn", d.Cfg.ID, "last", string(r.LastPosition))
+	d.mu.Lock()
+	d.flushAll = true
+	d.cond.Broadcast()
+	d.mu.Unlock()
 	return pconnector.DestinationStopResponse{}, nil
 }
 
-func (d *Dest) Teardown(context.Context, pconnector.DestinationTeardownRequest) (pconnector.DestinationTeardownResponse, error) {
+func (d *Dest) Teardown(ctx context.Context, _ pconnector.DestinationTeardownRequest) (pconnector.DestinationTeardownResponse, error) {
 	d.mu.Lock()
 	defer d.mu.Unlock()
 	d.tears++
@@ -365,6 +392,12 @@ func (d *Dest) Teardown(context.Context, pconnector.DestinationTeardownRequest) 
 	}
 	d.W.Log.Add("Teardown", "conn", d.Cfg.ID, "key", d.Cfg.ID, "kind", kind, "run", d.run)
 	d.cond.Broadcast()
+	if err := ctx.Err(); err != nil && d.Cfg.TeardownErr == "" {
+		// a plugin reached over gRPC answers a call made with a cancelled context with that error; the
+		// plugin itself is torn down all the same (the host kills the process)
+		d.W.Log.Add("Fault", "what", "teardown-ctx", "conn", d.Cfg.ID, "err", err.Error())
+		return pconnector.DestinationTeardownResponse{}, err
+	}
 	return pconnector.DestinationTeardownResponse{}, toErr(d.Cfg.TeardownErr)
 }
 
